@@ -38,7 +38,7 @@ def tree_hash(repo):
             h.update(f.read())
     except OSError:
         pass
-    for extra in ('normalize.py', os.path.join('tables', 'vocabulary.json')):
+    for extra in ('normalize.py', 'norm.py', 'loops.py', 'astq.py', os.path.join('tables', 'vocabulary.json')):
         try:
             with open(os.path.join(VERIF, 'tsa', extra), 'rb') as f:
                 h.update(f.read())
